@@ -387,6 +387,27 @@ class Comp(Ref):
         return self._measure
 
 
+def coplanar_contact(A, B, eps=1e-9):
+    """Does a horizontal planar region (rectangle, circle, sector, polygon) lie exactly in the plane of a flat face
+    of a box / prism mesh (volume or surface)?  Then the operands merely touch within numerical tolerance: which
+    samples pass the library's exact `z ==` tests is decided by rounding noise, and no law is defined."""
+    for flat, mesh in ((A, B), (B, A)):
+        if not (isinstance(flat, (DiscRef, RectRef)) or isinstance(flat, PolyRef) and not flat.hz):
+            continue
+        if isinstance(mesh, EllRef) or not (isinstance(mesh, BoxRef) or isinstance(mesh, PolyRef) and mesh.hz):
+            continue
+        if isinstance(mesh, BoxRef):
+            faces = [(np.eye(3)[i], s * mesh.h[i] * np.eye(3)[i]) for i in range(3) for s in (-1, 1)]
+        else:
+            a, b = ring_edges(mesh.rings)
+            faces = [(np.array([0, 0, 1.0]), np.array([0, 0, s * mesh.hz])) for s in (-1, 1)]
+            faces += [(np.array([e[1], -e[0], 0.0]) / np.hypot(*e), np.array([p[0], p[1], 0.0])) for p, e in zip(a, b - a)]
+        for nrm, c in faces:
+            if abs((mesh.R @ nrm)[2]) > 1 - 1e-9 and abs((mesh.pos + mesh.R @ c)[2] - flat.zs[0]) <= eps:
+                return True
+    return False
+
+
 class KDCells:
     """Partition of space into <= 2**depth boxes by recursive near-median splits of a point sample along its
     widest axis; adapts to sets of any intrinsic dimension.  A cut is always placed in the middle of a gap
